@@ -369,7 +369,7 @@ func TestC10(t *testing.T) {
 		u := newCDP(t, cdpOpts{variant: variant})
 		u.c.App.NewliqKeeper.SetParams(u.c.Ctx(), liqV2types.Params{LiquidationBatchSize: uint64([]int{200, 5}[run%2])})
 		rnd := rng("C10", run)
-		cfg := cdpCfg{priceMoves: true, bids: true, lockers: false, unsolicited: true, liquidateMsg: true, unsafeBias: true, limitBids: true, maxGap: 2 * 3600 * 1e9}
+		cfg := cdpCfg{priceMoves: true, bids: true, lockers: false, unsolicited: true, liquidateMsg: true, unsafeBias: true, limitBids: true, reserve: variant%3 != 0, maxGap: 2 * 3600 * 1e9}
 		r := newCdpRunner(u, rnd, rec, cfg, newC10Mon(u, rec))
 		r.run(cdpSteps())
 		if run == 0 {
